@@ -178,8 +178,24 @@ class Ctx:
     return SymInt(c)
 
   def split(self, name, lo, hi):
-    """Integer in [lo, hi] split by the solver into a concrete ExactInt on each path."""
-    return ExactInt(self.int(name, lo, hi).__index__())
+    """Fresh integer in [lo, hi], case-split into a concrete ExactInt on each path.  The variable is new and
+    only range-constrained, so every value is feasible by construction: no feasibility query is needed (the
+    equality still enters the path condition and the model)."""
+    c = z3.Int(name)
+    self.vars[name] = ("int", c)
+    if lo > hi: raise PathAbort("empty range")
+    if self.pos < len(self.prefix):
+      e = self.prefix[self.pos]
+      if e.get("kind") != "enum": raise EngineError("prefix desynchronised (expected enum)")
+      v = e["v"]
+    else:
+      v = lo
+      self.prefix.append({"kind": "enum", "val": True, "alt": lo < hi, "v": lo, "hi": hi})
+      self.stats.decisions += 1
+    self.pos += 1
+    self._add(c == v)
+    self.bound[c.get_id()] = v
+    return ExactInt(v)
 
   def elem(self, name):
     c = z3.Const(name, SymElem.SORT)
@@ -188,6 +204,9 @@ class Ctx:
 
   def elems(self, prefix, n):
     return [self.elem("%s%d" % (prefix, i)) for i in range(n)]
+
+  def distinct(self, elems):
+    if len(elems) > 1: self._add(z3.Distinct(*[e.t for e in elems]))
 
   def elem_const(self, o):
     """A Python constant meeting a SymElem: one Elem constant per value."""
@@ -211,9 +230,8 @@ class Ctx:
     return c
 
   def choice(self, name, options):
-    """Solver-split choice among a finite list of Python objects."""
-    idx = self.int(name, 0, len(options) - 1)
-    return options[idx.__index__()]
+    """Case split among a finite list of Python objects (index is a fresh symbolic integer)."""
+    return options[self.split(name, 0, len(options) - 1)]
 
   # ---- path condition ------------------------------------------------
   def _add(self, expr):
@@ -306,6 +324,8 @@ class Ctx:
     ne = z3.simplify(z3.Not(expr))
     if ne.get_id() in self.pc_ids: return False
     if self.pos < len(self.prefix):
+      if self.prefix[self.pos].get("kind") == "enum":
+        raise EngineError("prefix desynchronised (boolean decision where an enum split was recorded)")
       val = self.prefix[self.pos]["val"]
     else:
       known = self._cached_eval(expr)
@@ -562,6 +582,9 @@ class ConcreteCtx:
   def elems(self, prefix, n):
     return [self.elem("%s%d" % (prefix, i)) for i in range(n)]
 
+  def distinct(self, elems):
+    if len(set(elems)) != len(elems): raise EngineError("model does not keep elements distinct")
+
   def choice(self, name, options):
     return options[int(self._get(name, 0))]
 
@@ -800,7 +823,11 @@ def explore(harness, cfg, caps, hname="?"):
     while prefix and not prefix[-1]["alt"]:
       prefix.pop()
     if not prefix: break
-    prefix[-1] = {"val": not prefix[-1]["val"], "alt": False, "v": prefix[-1]["v"]}
+    if prefix[-1].get("kind") == "enum":
+      e = prefix[-1]
+      prefix[-1] = {"kind": "enum", "val": True, "alt": e["v"] + 1 < e["hi"], "v": e["v"] + 1, "hi": e["hi"]}
+    else:
+      prefix[-1] = {"val": not prefix[-1]["val"], "alt": False, "v": prefix[-1]["v"]}
     if stats.paths >= max_paths:
       stats.inconclusive.append({"clause": "engine", "why": "path cap %d reached" % max_paths})
       break
